@@ -149,6 +149,12 @@ def _genseq(draw):
     labels = []
     if draw(st.integers(0, 2)) == 0:
         labels.append([draw(st.integers(0, len(seq) - 1)), "chiral", draw(st.sampled_from(["R", "S"]))])
+        # further labels, also a second attribute for a block that already has one
+        for _ in range(draw(st.integers(0, 2))):
+            blk = draw(st.integers(0, len(seq) - 1))
+            attr = draw(st.sampled_from(["charge", "tact"]))
+            if not any(l[0] == blk and l[1] == attr for l in labels):
+                labels.append([blk, attr, draw(st.sampled_from(["neg", "pos", "iso"]))])
     return {"kind": "genseq", "macros": macros, "filemacro": filemacro, "seq": seq, "connects": connects,
             "modf": modf, "labels": labels}
 
@@ -368,7 +374,7 @@ def check_genseq(spec, ctx, ff):
         for lab, val in labels.get(k, {}).items():
             if got_nodes[k].get(lab) != val:
                 raise Violation("genseq:labels", f"node {k} {lab}={got_nodes[k].get(lab)!r} expected {val!r}")
-        for lab in ("chiral",):
+        for lab in ("chiral", "charge", "tact"):
             if lab in got_nodes[k] and lab not in labels.get(k, {}):
                 raise Violation("genseq:labels", f"node {k} carries {lab} without a label record for its block")
     got_edges = {frozenset((e["source"], e["target"])) for e in data[key]}
